@@ -37,7 +37,7 @@ For each mutation N in (1, 2) create the directory {sd}/mutN/ with:
   - patch.diff    : `git diff` taken from the worktree root; must apply with `git apply` on a clean worktree.
   - demo_test.go  : a Go test file whose FIRST line is `// place in: <dir relative to worktree root>` (e.g. `// place in: .` or `// place in: pkg/handlers`); package clause must fit that directory (internal package or external _test package); test function names start with `TestSeed`; it must FAIL with the patch applied and PASS on the clean tree; deterministic (if it needs concurrency, make the schedule deterministic with channels, no sleeps-as-synchronisation).
   - README.md     : what was changed and why it looks innocent, which clause of the property breaks, exactly what is needed for it to manifest, and the commands you ran with their results.
-Verify yourself, for each mutation: (1) the demo passes on the clean tree, (2) with the patch `go build ./... && go test -vet=off -count=1 ./...` is all ok, (3) with the patch the demo fails. Leave the worktree clean at the end (`git checkout -- . && git clean -fdq`). Your final answer: a short summary (at most 6 lines per mutation).
+Verify yourself, for each mutation: (1) the demo passes on the clean tree, (2) with the patch `go build ./... && go test -vet=off -count=1 ./...` is all ok, (3) with the patch the demo fails. Never use `git stash` (the stash is shared by all worktrees of the repository). Leave the worktree clean at the end (`git checkout -- . && git clean -fdq`). Your final answer: a short summary (at most 6 lines per mutation).
 """
     open(f'/tmp/prompts{rnd}/{pid}.txt', 'w').write(txt)
 print('ok')
